@@ -370,6 +370,11 @@ def _valid_cases(ctx):
             cases.append((f"round/{fn}/all-bytes", {"op": "c20.round", "fn": fn, "state": st, "rk": [0] * 16}))
     for _ in range(ctx.n(20, 400)):
         cases.append(("round/word", {"op": "c20.round", "fn": rng.choice(("rot_word", "sub_word")), "state": _rb(rng, 4), "rk": []}))
+    for n in range(1, ctx.n(34, 70)):
+        for k in (1, 2, 5):
+            m = _padlike(rng, n, k)
+            cases.append(("pad/padlike-tail", {"op": "c20.pad", "unpad": False, "data": m, "bs": 16}))
+            cases.append(("unpad/padlike-tail", {"op": "c20.pad", "unpad": True, "data": list(ref_pad(bytes(m))), "bs": 16}))
     for n in range(0, ctx.n(40, 130)):
         cases.append(("pad", {"op": "c20.pad", "unpad": False, "data": _pattern(rng, n), "bs": 16}))
         padded = ref_pad(bytes(_pattern(rng, n)))
@@ -431,6 +436,14 @@ def _malformed_cases(ctx):
     return cases
 
 
+def _padlike(rng, n, k):
+    """a message of length n whose last k bytes equal the PKCS#7 pad byte its padding will use (16 - n % 16):
+    unpadding must remove exactly the padding, not every trailing byte that looks like it"""
+    pb = 16 - n % 16
+    k = min(k, n)
+    return _rb(rng, n - k) + [pb] * k
+
+
 def _wrapper_cases(ctx, broken):
     """CryptAES: encrypt on the real class (it draws the IV), the model gets the same IV; decrypt of the result,
     of tampered results and of arbitrary strings on both sides."""
@@ -443,9 +456,12 @@ def _wrapper_cases(ctx, broken):
         broken.append(Broken("correspondence", "c20.patch", "after patch_pypdf_fallback_aes() pypdf's modules do not all point at the library's AES functions / CryptAES"))
         return [], []
     reqs, impls = [], []
-    for n in list(range(0, ctx.n(65, 201))) + [rng.randrange(200, 600) for _ in range(ctx.n(3, 40))]:
+    lens = list(range(0, ctx.n(65, 201))) + [rng.randrange(200, 600) for _ in range(ctx.n(3, 40))]
+    msgs = [bytes(_pattern(rng, n)) for n in lens] + [bytes(_padlike(rng, n, k)) for n in range(1, ctx.n(34, 70)) for k in (1, 3)]
+    for m in msgs:
+        n = len(m)
         kl = rng.choice((16, 24, 32))
-        key, m = bytes(_rb(rng, kl)), bytes(_pattern(rng, n))
+        key = bytes(_rb(rng, kl))
         try:
             e = cls(key).encrypt(m)
             eo = {"ok": list(e)}
@@ -713,6 +729,9 @@ def _oracle(ctx, seeds, budget):
         run(*t)
     for n in range(0, 65):
         run("wrapper", bytes(_rb(rng, rng.choice((16, 24, 32)))), b"", bytes(_rb(rng, n)))
+        for k in (1, 2, 4):
+            if n:
+                run("wrapper", bytes(_rb(rng, rng.choice((16, 24, 32)))), b"", bytes(_padlike(rng, n, k)))
     for kl in list(range(0, 41)) + [48, 64]:
         run("ecb", bytes(_rb(rng, kl)), b"", bytes(_rb(rng, 16 * rng.randrange(0, 3))))
         run("cbc", bytes(_rb(rng, kl)), bytes(_rb(rng, 16)), bytes(_rb(rng, 16 * rng.randrange(0, 3))))
